@@ -35,7 +35,7 @@ MUTANTS = [
     ("c09_drop_usepulses", "C09", "core/algorithm/expand_subcircuits.py", "        new_circuit.usepulses.extend(circuit.usepulses)\n", ""),
     ("c09_leave_macro_subcircuits", "C09", "core/algorithm/expand_subcircuits.py", "        return Macro(macro.name, macro.parameters, self.visit(macro.body))", "        return macro"),
     # ---- C10
-    ("c10_no_splice_in_loops", "C10", "core/algorithm/expand_macros.py", "    def visit_LoopStatement(self, loop):\n        return LoopStatement(loop.iterations, self.visit(loop.statements))", "    def visit_LoopStatement(self, loop):\n        body = BlockStatement(parallel=loop.statements.parallel, statements=[self.visit(s) for s in loop.statements.statements])\n        return LoopStatement(loop.iterations, body)"),
+    ("c10_loop_count_param_not_substituted", "C10", "core/algorithm/expand_macros.py", "        return LoopStatement(\n            iterations=self.visit(loop.iterations),", "        return LoopStatement(\n            iterations=loop.iterations,"),
     ("c10_parser_flag_no_preserve", "C10", "parser/parser.py", "circuit = expand_macros(circuit, preserve_definitions=True)", "circuit = expand_macros(circuit, preserve_definitions=False)"),
     ("c10_fill_in_let_drops_subcircuit", "C10", "core/algorithm/fill_in_let.py", "        if block.subcircuit:\n            return [\n                \"subcircuit_block\",\n                self.visit(block.iterations),\n                *[self.visit(stmt) for stmt in block.statements],\n            ]\n", ""),
     ("c10_float_format", "C10", "generator/generator.py", "        if exp and \".\" not in mantissa:", "        if False:"),
